@@ -66,12 +66,21 @@ def run(v, tier, seed):
             raise MachineryFailure('C14 dist harness: no OPERATION')
         try:
             c = pc.c
-            todo = [(a, s) for a in apps for s in pl.STRATS]
+            todo = [(a, s, None) for a in apps for s in pl.STRATS]
             rnd.shuffle(todo)
             if tier == 'quick':
                 todo = todo[:60]
-            for (a, dist, rule, kn), strategy in todo:
-                loads = {n: rnd.choice([0, 0, 30, 40, 70]) for n in pl.NODES}
+            # directed: the application rule lists only ONE instance of node A (n2), every program is known
+            # everywhere, node A is the better node and n1 (not allowed) the better instance of it
+            if not down:
+                for a in apps:
+                    if a[3] == 'all' and a[2] == 'n3,n2':
+                        for s in ('LESS_LOADED', 'LESS_LOADED_NODE', 'MOST_LOADED', 'MOST_LOADED_NODE'):
+                            less = s.startswith('LESS')
+                            todo.insert(0, (a, s, {'n1': 0 if less else 40, 'n2': 30 if less else 0,
+                                                   'n3': 70 if less else 0}))
+            for (a, dist, rule, kn), strategy, fixed in todo:
+                loads = fixed or {n: rnd.choice([0, 0, 30, 40, 70]) for n in pl.NODES}
                 pc.set_loads(loads)
                 infos = {c.nick(i['identifier']): i for i in c.call('n1', 'get_all_instances_info')}
                 names = list(pl.NODES)
